@@ -12,7 +12,7 @@ import (
 // ---------------------------------------------------------------------------
 
 var verifTopicNames = [...]string{"t0", "t1", "t2"}
-var verifMemberNames = [...]string{"m0", "m1", "m2"}
+var verifMemberNames = [...]string{"m0", "m1", "m2", "m3"}
 
 type verifGroupIn struct {
 	nMembers  int
